@@ -1,0 +1,81 @@
+//! Verification hooks. Only compiled with `--cfg rosu_pp_verif`.
+//!
+//! Everything in here merely re-exports or wraps crate-private items so that
+//! an external harness can drive them. No behaviour is added or changed.
+
+pub use crate::util::{
+    limited_queue::LimitedQueue,
+    random::{csharp::Random as CsharpRandom, osu::Random as OsuRandom},
+    sort::{csharp as csharp_sort, osu_legacy as osu_legacy_sort, TandemSorter},
+    strains_vec::StrainsVec,
+};
+
+use crate::{
+    model::{hit_object::HitObject, mods::Reflection},
+    GameMods,
+};
+
+/// Snapshot of every crate-private accessor of [`GameMods`].
+#[derive(Clone, Debug, PartialEq)]
+pub struct ModsSnapshot {
+    pub clock_rate: f64,
+    pub od_ar_hp_multiplier: f64,
+    pub hardrock_offsets: bool,
+    pub no_slider_head_acc_lazer: bool,
+    pub no_slider_head_acc_stable: bool,
+    /// 0: None, 1: Vertical, 2: Horizontal, 3: Both
+    pub reflection: u8,
+    pub mania_keys: Option<f32>,
+    pub scroll_speed: Option<f64>,
+    pub random_seed: Option<i32>,
+    pub ar: Option<f64>,
+    pub cs: Option<f64>,
+    pub hp: Option<f64>,
+    pub od: Option<f64>,
+    /// nf ez td hd hr rx fl so ap bl cl invert ho tc
+    pub flags: [bool; 14],
+}
+
+pub fn mods_snapshot(mods: &GameMods) -> ModsSnapshot {
+    ModsSnapshot {
+        clock_rate: mods.clock_rate(),
+        od_ar_hp_multiplier: mods.od_ar_hp_multiplier(),
+        hardrock_offsets: mods.hardrock_offsets(),
+        no_slider_head_acc_lazer: mods.no_slider_head_acc(true),
+        no_slider_head_acc_stable: mods.no_slider_head_acc(false),
+        reflection: match mods.reflection() {
+            Reflection::None => 0,
+            Reflection::Vertical => 1,
+            Reflection::Horizontal => 2,
+            Reflection::Both => 3,
+        },
+        mania_keys: mods.mania_keys(),
+        scroll_speed: mods.scroll_speed(),
+        random_seed: mods.random_seed(),
+        ar: mods.ar(),
+        cs: mods.cs(),
+        hp: mods.hp(),
+        od: mods.od(),
+        flags: [
+            mods.nf(),
+            mods.ez(),
+            mods.td(),
+            mods.hd(),
+            mods.hr(),
+            mods.rx(),
+            mods.fl(),
+            mods.so(),
+            mods.ap(),
+            mods.bl(),
+            mods.cl(),
+            mods.invert(),
+            mods.ho(),
+            mods.tc(),
+        ],
+    }
+}
+
+/// Sorts hit objects the way mania maps are sorted during decoding.
+pub fn legacy_sort_hit_objects(objects: &mut [HitObject]) {
+    crate::util::sort::osu_legacy(objects);
+}
